@@ -275,7 +275,7 @@ func finishBFS(ctx *core.Ctx, total xstate.Stats, extra int) {
 
 func runC04(ctx *core.Ctx, pool *par.Pool) {
 	cfgs := []pagedrv.Cfg{pagedrv.CfgA, pagedrv.CfgB, pagedrv.CfgC}
-	depth, seedDepth := 5, 4
+	depth, seedDepth := 5, 5
 	ctx.SetBudget(110 * time.Second)
 	if !ctx.Quick() {
 		cfgs = []pagedrv.Cfg{pagedrv.CfgA, pagedrv.CfgB, pagedrv.CfgC, pagedrv.CfgE, pagedrv.CfgF}
@@ -461,7 +461,7 @@ func runC10(ctx *core.Ctx, pool *par.Pool) {
 	reopens, twinsRun := 0, 0
 	runs := plan(cfgs, []seed{seedTail, seedFrag, seedWAL, seedFull, seedOverflow, seedWide}, depth, seedDepth)
 	if ctx.Quick() {
-		runs = quickPlan(depth-1, seedDepth-1, true, true)
+		runs = quickPlan(depth, seedDepth, true, true)
 	}
 	for _, run := range runs {
 		ctx.Share(ctx.Budget() * 8 / 10 / time.Duration(len(runs)))
